@@ -213,3 +213,36 @@ def fx_probe(fx):
     c = _ctx()
     n = sentinel.probe_past_tombstones(c, fx, "src/lib.rs", "probe::Slot::mark", {0, (1 << 64) - 1}, name_rx=r"probe::Table::\w+_insert$")
     return n == 2 and _fires(c, "Table::bad_insert") and not _fires(c, "Table::ok_insert")
+
+
+def fx_sibling(fx):
+    from rules import sentinel
+    c1, c2 = _ctx(), _ctx()
+    n1 = sentinel.index_reduction_agreement(c1, fx, "src/lib.rs", "sib::T::none", only=lambda f: "sib::T::ok_" in f)
+    n2 = sentinel.index_reduction_agreement(c2, fx, "src/lib.rs", "sib::T::none", only=lambda f: "sib::T::bad_" in f)
+    return n1 == 2 and not c1.violations and n2 == 3 and _fires(c2, "T::bad_put") and len(c2.violations) == 1
+
+
+def fx_arithmul(fx):
+    from rules import taint
+    c = _ctx()
+    cl = taint.new_closure(fx)
+    for fid in fx.fn_ids("src/lib.rs"):
+        if fid.startswith("arith::") and fid.endswith("_open"):
+            cl.seed_entry(fid)
+    for fid, (fn, ft) in cl.run().items():
+        taint.check_arith(c, fn, ft, rule="R-ARITH.mul", ops=("Mul", "MulWithOverflow", "MulUnchecked"), fx=fx)
+    return _fires(c, "arith::bad_open") and not _fires(c, "arith::ok_open")
+
+
+def fx_div(fx):
+    from rules import taint
+    c = _ctx()
+    cl = taint.new_closure(fx)
+    for fid in fx.fn_ids("src/lib.rs"):
+        if fid.startswith("div::"):
+            cl.seed_entry(fid)
+    n = 0
+    for fid, (fn, ft) in cl.run().items():
+        n += taint.check_div(c, fn, ft)
+    return n == 2 and _fires(c, "div::bad_decode") and not _fires(c, "div::ok_decode")
